@@ -81,6 +81,7 @@ type vfReqOpts struct {
 	idKind    int
 	nObj      int // objects on the activity (default 1); -1 = none
 	noTarget  bool
+	noActor   bool // the activity names no actor: member absent or an empty array
 	configure func(w *vfWorld)
 }
 
@@ -148,6 +149,13 @@ func vfRunRequest(ep int, o vfReqOpts) *vfReqResult {
 					delete(res.act.tree, "target")
 				} else {
 					res.act.tree["target"] = []interface{}{}
+				}
+			}
+			if o.noActor {
+				if vfChoose("actor.missing", 2) == 0 {
+					delete(res.act.tree, "actor")
+				} else {
+					res.act.tree["actor"] = []interface{}{}
 				}
 			}
 			if nObj == 0 && vfChoose("object.missing", 2) == 1 {
